@@ -423,7 +423,8 @@ def _get_comp_cls_media(comp_cls: Type["Component"]) -> Any:
             continue
 
         # Prepare base classes
-        media_input = getattr(curr_cls, "Media", None)
+        # NOTE: Only the `Media` defined on this very class; what the bases define is merged in below.
+        media_input = curr_cls.__dict__.get("Media", None)
         media_extend = getattr(media_input, "extend", True)
 
         # This ensures the same behavior as Django's Media class, where:
